@@ -139,6 +139,10 @@ def _inline_fail_rules(facts, R, module, lb, ls, fails, stops):
 
 
 def run(facts, R):
+    # a timed-out / cancelled call's late response is discarded *by the pending lookup missing*, nothing else: a filter in front
+    # of the lookup also discards the answers of live calls (C04's rule, shared)
+    from rules.C04 import every_response_is_looked_up
+    every_response_is_looked_up(facts, R, "late-response-only-misses-the-lookup")
     has_ws = "websocket" in facts.features
     for module, loopfn, failfn, is_async in LOOPS:
         if module == "websocket_client" and not has_ws:
@@ -386,6 +390,14 @@ def run(facts, R):
         ds = Sym(dp)
         rms = [(i, t) for i, t in dp.calls() if t["callee"]["name"] == "remove" and "HashMap" in t["callee"]["path"]]
         R.check(len(rms) == 1, "pending-removed-on-abandon", dp.path, "Drop removes the key", "Drop has %d removes" % len(rms), dp.span)
+        # ... and leaves nothing else behind: an abandoned call that records itself somewhere (a set of abandoned ids, a log of
+        # late ids, a counter map) is residue that outlives the call and that something will later act on
+        grows = [(i, t) for i, t in dp.calls() if t["callee"]["name"] in ("insert", "push", "push_back", "push_front", "extend", "entry", "append", "or_insert", "or_insert_with")
+                 and any(k in t["callee"]["path"] for k in ("HashMap", "HashSet", "BTreeMap", "BTreeSet", "Vec", "VecDeque"))]
+        R.check(not grows, "pending-removed-on-abandon", dp.path, "an abandoned call leaves nothing behind",
+                "dropping the guard of an abandoned call adds to a collection through %s: the record outlives the call (the property's `leaves nothing behind`), "
+                "and whatever reads it later acts on a call that no longer exists" % [t["callee"]["path"].rsplit("::", 2)[-2:] for _, t in grows][:3], grows[0][1].get("span") if grows else dp.span,
+                "Drop only removes")
         for i, t in rms:
             key = ds.op(t["args"][1])
             fs = facts_at(dp, ds, facts, i)
